@@ -42,6 +42,7 @@ type EngScenario struct {
 	Seed     int64      `json:"seed"`
 	Sparse   bool       `json:"sparse"` // snapshots list only non-empty entries (large N)
 	Procs    []bool     `json:"procs"`  // user post-processors that are components themselves; true = LazyInit
+	Mode     []string   `json:"mode"`   // per node: normal | beforeNil | shortcut (lifecycle imposed by the rig processor)
 }
 
 // a user post-processor with a lifecycle of its own (pass-through callbacks)
@@ -381,8 +382,18 @@ func (r *rig) PostProcessBeforeInitialization(c any, name string) (any, error) {
 		if err := r.e.cb("before", id); err != nil {
 			return nil, err
 		}
+		if r.e.sc.Mode[id-1] == "beforeNil" {
+			return nil, nil
+		}
 	}
 	return c, nil
+}
+func (r *rig) PostProcessBeforeInstantiation(m *component_definition.Meta, name string) (any, error) {
+	if id := r.e.idOf(name); id != 0 && r.e.sc.Mode[id-1] == "shortcut" {
+		r.e.emit("binst", id, nil)
+		return m.Raw, nil
+	}
+	return nil, nil
 }
 func (r *rig) PostProcessAfterInitialization(c any, name string) (any, error) {
 	id := r.e.idOf(name)
@@ -555,6 +566,12 @@ func runEngScenario(sc *EngScenario) []map[string]any {
 	ordered = append(ordered, r)
 	if sc.Procs == nil {
 		sc.Procs = []bool{}
+	}
+	if len(sc.Mode) != sc.N {
+		sc.Mode = make([]string, sc.N)
+		for i := range sc.Mode {
+			sc.Mode[i] = "normal"
+		}
 	}
 	for i, lazy := range sc.Procs {
 		if lazy {
